@@ -42,15 +42,17 @@ for meta in "$HERE"/mutants/*.json; do
   metas+=("$meta")
 done
 # the seeded changes written by independent sub-agents (/verif/seeded/<id>/patch.diff) belong to the corpus too
-for sd in "$VERIF"/seeded/C*/; do
-  id=$(basename "$sd")
+for sd in "$VERIF"/seeded/*/; do
+  tag=$(basename "$sd")
   [ -f "$sd/patch.diff" ] || continue
+  id="$tag"
+  [ -f "$sd/meta.json" ] && id=$(jq -r .property "$sd/meta.json")
   if [ -n "$FILTER" ] && ! echo " $FILTER " | grep -q " $id "; then continue; fi
-  tmpm="/tmp/selftest-seed-$$-$id"
+  tmpm="/tmp/selftest-seed-$$-$tag"
   mkdir -p "$tmpm"
-  cp "$sd/patch.diff" "$tmpm/$id.patch"
-  printf '{"name": "seeded", "property": "%s", "expect": "property=%s", "existing_tests": "pass"}\n' "$id" "$id" > "$tmpm/$id.json"
-  metas+=("$tmpm/$id.json")
+  cp "$sd/patch.diff" "$tmpm/$tag.patch"
+  printf '{"name": "seeded-%s", "property": "%s", "expect": "property=%s", "existing_tests": "pass"}\n' "$tag" "$id" "$id" > "$tmpm/$tag.json"
+  metas+=("$tmpm/$tag.json")
 done
 printf '%s\n' "${metas[@]}" | xargs -P 6 -I{} bash -c 'run_one "$@"' _ {} | tee /tmp/selftest.$$.out
 rm -rf /tmp/selftest-seed-$$-*
